@@ -13,7 +13,7 @@
 //	running   a second start / retry while the first is active       (C16: refused silently, first untouched)
 //	normal    control: a plain run                                   (steps + handlers run, one history file)
 //	bindfail  the socket path cannot be bound                        (run recorded, nothing executed)
-//	race      (only when named) the probe/bind race made deterministic by holding one agent after its probe (C16, F16a)
+//	race      (only when named) the former probe/bind race (F16a): one agent held inside its locked section, a second started meanwhile (C16)
 //
 // default: all.  One JSON object per line, see type Case.  `log` is the ordered list of what the agent did:
 // "probe", "removeold", "open", "write", "close", "exec:<step or handler name>".
@@ -81,6 +81,7 @@ type Case struct {
 	StatusBefore string   `json:"status_before,omitempty"` // class running: endpoint answer before / after the second attempt
 	StatusAfter  string   `json:"status_after,omitempty"`
 	HistDuring   int      `json:"hist_during"`      // class running: history files while the first was active, after the second attempt
+	BWaited      bool     `json:"b_waited"`         // class race: B did nothing while A was inside its locked section
 	Others       []*Obs   `json:"others,omitempty"` // class race: the runs B and C
 	Infra        string   `json:"infra,omitempty"`  // the driver itself failed (not an observation)
 }
@@ -711,14 +712,16 @@ func running(k int, rng *vh.Rng, work string, sub string, retry bool) Case {
 	return c
 }
 
-// the probe/bind race, deterministically: A is held after its probe (inside its history Open); B starts, binds and
-// blocks inside a step; A is released: it removes B's socket, binds and runs; after A has finished nothing answers on
-// the path although B is still active, and a third start C is let in.  Observed run = A; others under `others`.
+// the former probe/bind race (F16a), deterministically: A is held after its probe (inside its history Open, i.e. inside the
+// locked section); B is started meanwhile and must wait for the lock (its log stays empty); A is released, binds and
+// blocks inside its first step; B then probes and is refused; so is a third start C.  Observed run = A; B and C under
+// `others`; `b_waited` = B had done nothing 300 ms after its start.
 func race(k int, rng *vh.Rng, work string) Case {
 	c := Case{K: k, Class: "race", Sub: "probe-bind"}
 	s := &spec{dir: filepath.Join(work, fmt.Sprintf("c%d", k)), name: fmt.Sprintf("d%d", k), modes: map[string]string{}}
 	s.steps = validSteps(rng)
 	s.handlers = []string{"exit"}
+	s.modes[nm(0)] = "block"
 	fill(&c, s)
 	gate := make(chan struct{})
 	a, err := prepareG(s, fmt.Sprintf("t%da", k), &agent.Options{}, gate)
@@ -726,56 +729,57 @@ func race(k int, rng *vh.Rng, work string) Case {
 		c.Infra = err.Error()
 		return c
 	}
+	a.held = true
 	go a.run()
 	if !a.waitFor("open", 10*time.Second) {
 		c.Infra = "A never reached its history open"
 		close(gate)
+		close(a.rc.release)
 		<-a.done
 		return c
 	}
 	sb := *s
-	sb.modes = map[string]string{nm(0): "block"}
+	sb.modes = map[string]string{}
 	b, err := prepare(&sb, fmt.Sprintf("t%db", k), &agent.Options{})
 	if err != nil {
 		c.Infra = err.Error()
 		close(gate)
+		close(a.rc.release)
 		<-a.done
 		return c
 	}
-	b.held = true
 	go b.run()
-	if !b.waitFor("exec:"+nm(0), 10*time.Second) {
-		c.Infra = "B never started its steps"
-		close(gate)
-		close(b.rc.release)
+	time.Sleep(300 * time.Millisecond)
+	c.BWaited = len(b.rec.snapshot()) == 0
+	close(gate)
+	if !a.waitFor("exec:"+nm(0), 10*time.Second) {
+		c.Infra = "A never started its steps"
+		close(a.rc.release)
 		<-a.done
 		<-b.done
 		return c
 	}
+	<-b.done
 	cli := client.New(s.stores(), "", s.dir, lg)
 	status := func() string {
-		st, err := cli.GetCurrentStatus(b.wf)
+		st, err := cli.GetCurrentStatus(a.wf)
 		if err != nil {
 			return "error:" + err.Error()
 		}
 		return st.Status.String()
 	}
-	c.StatusBefore = status() // B answers
-	sa := *s
-	sa.modes = map[string]string{}
-	_ = os.WriteFile(s.file(), []byte(sa.yaml(a.tag)), 0o644)
-	close(gate)
-	<-a.done
-	c.Obs = a.obs
-	c.StatusAfter = status() // nobody answers although B is active
+	c.StatusBefore = status()
 	sc := *s
 	sc.modes = map[string]string{}
 	third, err := prepare(&sc, fmt.Sprintf("t%dc", k), &agent.Options{})
 	if err == nil {
 		third.run()
 	}
-	close(b.rc.release)
-	<-b.done
+	c.StatusAfter = status()
+	c.HistDuring = len(listFiles(s.dataDir()))
+	close(a.rc.release)
+	<-a.done
+	c.Obs = a.obs
 	c.Others = []*Obs{&b.obs}
 	if third != nil {
 		c.Others = append(c.Others, &third.obs)
